@@ -657,6 +657,11 @@ def shrink(s):
 
 def _shrink(s):
     ops = split_ops(s)
+    # drop a custom type altogether: its install ops and every parameter of that type
+    for ty in sorted(set(o[1] for o in ops if o[0].startswith(":S.install") and len(o) > 1)):
+        keep = [o for o in ops if not (len(o) > 1 and o[1] == ty and ("OfType" in o[0] or o[0].startswith(":S.install")))]
+        if len(keep) < len(ops):
+            yield " ".join(" ".join(o) for o in keep)
     # drop one op (never the leading support selection), then a selection + op pair
     for i in range(1, len(ops)):
         yield " ".join(" ".join(o) for o in ops[:i] + ops[i + 1:])
@@ -723,9 +728,14 @@ LEVEL_TEXT = ("Machine-checked (Coq) theorems over a wiring model REGENERATED FR
               "...OrDefault methods in MockSupport.cpp / MockActualCall.cpp): every table position forwards to the C++ operation its "
               "field name and signature denote, value conversion to the C tagged union is exact, and for every valid C scenario the "
               "sequence of C++ operations reached through the tables equals its direct C++ translation (for any semantics of the C++ "
-              "machinery). Tied to the real code by an implementation-vs-implementation differential run: each generated scenario is "
+              "machinery), including which equality / to-string / copy functions the comparator or copier object installed for a type name "
+              "runs: installComparator_c / installCopier_c create a fresh adaptor node per call, so the object handed to C++ carries exactly "
+              "the functions of that call whatever nodes exist already (C19_adaptor_fresh, C19_copier_fresh; the equivalence holds for any "
+              "two such installers; an installer that reuses a node with the same equality function is refuted). Tied to the real code by an implementation-vs-implementation differential run: each generated scenario is "
               "executed through mock_c() from a C translation unit and through mock() from C++ inside a real test; verdict, failure "
-              "text, returned values (tag + payload), defaulting, output bytes and data-store reads must be identical.")
+              "text, returned values (tag + payload), defaulting, output bytes and data-store reads must be identical; custom types take "
+              "their comparator / copier functions from a pool (2 equality x 3 to-string x 2 copiers) with sharing between type names, as C "
+              "function pointers on one side and as C++ comparator / copier objects on the other.")
 LEVEL_NOTE = ("Trusted: Coq kernel, the translator-lite plugin tools/gen/C19.py (anchored regular expressions over the forwarders), extraction, "
               "the two harness interpreters (C and C++), generators. Modelled not verified: the C++ machinery behind both interfaces is a "
               "parameter of the equivalence theorem (its own behaviour is the subject of C08/C09); the model-vs-implementation comparison "
